@@ -54,6 +54,33 @@ CLAIMS: dict[str, tuple[str, str, str, str]] = {
         "Lean 4 proof (induction over events / bodies) + fault enumeration on the implementation",
         "§6 C14",
     ),
+    "C12": (
+        "FULL on the model (the parser is a parameter P of the model, so the theorems say which inputs a "
+        "result can depend on): frame (a call changes only the configuration of the instance it addresses), "
+        "config_after_history, probe_function (result of a probe = P(config made by that instance's own "
+        "configuration calls, source, env passed)), fresh_equiv, env_omitted, env_frame, "
+        "construct_deterministic. Tie: random API histories on 1-3 live instances with interleaved parses; "
+        "configuration compared with the model; probe renders/parses compared with a fresh identically "
+        "configured twin; deep snapshots of module globals/class attributes/_PRESETS; env leak probes; "
+        "caller-supplied preset dict aliasing probe; static scan for shared mutable defaults. That the "
+        "implementation has no state the model lacks is checked by this tie, not proved.",
+        NOTE + "The sequential parser is abstract (parameter P).",
+        "Lean 4 proof (frame/refinement over API histories) + differential histories against fresh twins",
+        "§6 C12",
+    ),
+    "C15": (
+        "FULL on the model for: dict_roundtrip (from_dict(as_dict) = identity for both attribute formats, "
+        "children converted or not, any nesting depth — mutual induction over the nested token type), "
+        "tree_roundtrip (every successful SyntaxTreeNode build flattens to the identical sequence), "
+        "walkList_sublist (walk follows stream order). PARTIAL: render repeatability and 'round-tripped "
+        "token renders the same' are decided by the oracle on the implementation (theorem planned with the "
+        "renderer model); sibling/parent link consistency is by construction in the functional model and "
+        "checked on the implementation. Tie: dictrt/tree driver requests on parser-produced and damaged "
+        "streams compared field by field.",
+        NOTE + "meta values other than str are outside the model's Token.",
+        "Lean 4 proof (structural induction on nested tokens; functional induction on the tree builder) + differential correspondence",
+        "§6 C15",
+    ),
 }
 
 PENDING_REASON = "check under construction in this session (Lean model + theorems not yet committed); not claimed until its check exists"
